@@ -32,11 +32,15 @@ struct SDef {
     items: Vec<Item>,
 }
 
-const TOKEN_SEP: [&str; 11] = [" ", "  ", "\t", "\n", "\r\n", "\r", "\n:", "\n:   ", " # x=99 inv comment\n", "\n# y=98 | z=97 own line comment\n", "\n\n"];
+const TOKEN_SEP: [&str; 17] = [
+    " ", "  ", "\t", "\n", "\r\n", "\r", "\n:", "\n:   ", " # x=99 inv comment\n", "\n# y=98 | z=97 own line comment\n", "\n\n",
+    // the same with the other two line ends (a comment ends at ANY line end, a continuation colon follows ANY line end)
+    "\r:", "\r\n:", " # x=99 inv comment\r", " # x=99 inv comment\r\n", "\r# y=98 | z=97 own line comment\r", "\r\n# y=98 | z=97 own line comment\r\n",
+];
 const EQ_SEP: [&str; 5] = ["=", " =", "= ", " = ", "\t=\n"];
 const COMMA_SEP: [&str; 4] = [",", " ,", ", ", " ,\n"];
-const PIPE_PAD: [&str; 7] = [" ", "", "  ", "\n", "\r\n", " # inv x=96 comment after step\n", "\n\n"];
-const EDGE: [&str; 5] = ["", " ", "\n", "\t", "\r\n"];
+const PIPE_PAD: [&str; 10] = [" ", "", "  ", "\n", "\r\n", " # inv x=96 comment after step\n", "\n\n", "\r", " # inv x=96 comment after step\r", " # inv x=96 comment after step\r\n"];
+const EDGE: [&str; 6] = ["", " ", "\n", "\t", "\r\n", "\r"];
 const EMPTY_STEP: [&str; 3] = ["", "|", "| |"];
 
 struct Renderer<'a> {
@@ -285,13 +289,13 @@ fn site_kind(steps: &[SDef], site: usize, alt: usize) -> String {
     let m = menus[site];
     let name = |names: &[&str]| names.get(alt).copied().unwrap_or("?").to_string();
     if m == TOKEN_SEP.len() {
-        format!("token-sep:{}", name(&["sp", "2sp", "tab", "lf", "crlf", "cr", "colon", "colon+sp", "trailing-comment", "own-line-comment", "blank-line"]))
+        format!("token-sep:{}", name(&["sp", "2sp", "tab", "lf", "crlf", "cr", "colon", "colon+sp", "trailing-comment", "own-line-comment", "blank-line", "cr+colon", "crlf+colon", "trailing-comment+cr", "trailing-comment+crlf", "own-line-comment+cr", "own-line-comment+crlf"]))
     } else if m == EQ_SEP.len() {
         "eq:whitespace".to_string()
     } else if m == COMMA_SEP.len() {
         "comma:whitespace".to_string()
     } else if m == PIPE_PAD.len() {
-        format!("pipe-pad:{}", name(&["sp", "none", "2sp", "lf", "crlf", "comment", "blank-line"]))
+        format!("pipe-pad:{}", name(&["sp", "none", "2sp", "lf", "crlf", "comment", "blank-line", "cr", "comment+cr", "comment+crlf"]))
     } else if m == 3 {
         // EMPTY_STEP and modifier position both have 3 alternatives; tell them apart by rendering
         let (canon, _) = render_with(steps, &|_| 0);
@@ -310,7 +314,7 @@ fn site_kind(steps: &[SDef], site: usize, alt: usize) -> String {
             "subscript".to_string()
         }
     } else {
-        format!("edge:{}", name(&["none", "sp", "lf", "tab", "crlf"]))
+        format!("edge:{}", name(&["none", "sp", "lf", "tab", "crlf", "cr"]))
     }
 }
 
